@@ -137,6 +137,8 @@ func (x *searcher) interruptedBuild(s, n *State, o buildOpts) []*State {
 		}
 	}
 	n.Art = artOf(tree)
+	lv := s.V
+	n.LoadV = &lv
 	n.Crashed = true
 	n.M.apply(events, s.V, tree)
 	// a body that started and was not acknowledged has not executed
